@@ -102,10 +102,33 @@ def _eval_modes(modes, D, N, L, lam_of_k=None, t=0.0):
     return u[None]
 
 
-def probe_exact(name, D, N, dt, seed):
+def _forced(forced):
+    S.FORCED_FLAGS.clear()
+    S.FORCED_FLAGS.update(forced or {})
+
+
+def option_combos(name, D, N, seed):
+    """every combination of the boolean options / argument forms the registry draws for this class"""
+    import itertools
+    _forced(None)
+    del S.DRAWN_FLAGS[:]
+    del S.DRAWN_CHOICES[:]
+    S.registry()[name](np.random.default_rng(seed), D, N, 0)
+    fl = list(dict.fromkeys(S.DRAWN_FLAGS))
+    ch = list(dict.fromkeys(S.DRAWN_CHOICES))
+    keys = fl + [c for c, _ in ch]
+    doms = [[False, True]] * len(fl) + [list(range(n)) for _, n in ch]
+    return [dict(zip(keys, c)) for c in itertools.product(*doms)] if keys else [{}]
+
+
+def probe_exact(name, D, N, dt, seed, forced=None):
     import jax.numpy as jnp
     rng = np.random.default_rng(seed)
-    spec = S.registry()[name](rng, D, N, 0)
+    _forced(forced)
+    try:
+        spec = S.registry()[name](rng, D, N, 0)
+    finally:
+        _forced(None)
     if spec.pos is None:
         spec.dt = dt
     dt = spec.dt
@@ -137,7 +160,9 @@ def probe_exact(name, D, N, dt, seed):
     ok = err <= tol
     if spec.pos is None:
         n = 3
+        _forced(forced)
         spec_n = S.registry()[name](np.random.default_rng(seed), D, N, 0)
+        _forced(None)
         spec_n.dt = n * dt
         if max((lam_of_k(k) * n * dt).real for k, _, _ in modes) < 30 and gall * n < 20:
             one = np.asarray(spec_n.build()(jnp.asarray(u0)))
@@ -148,7 +173,9 @@ def probe_exact(name, D, N, dt, seed):
             extra["semigroup_err"] = e2
             ok = ok and e2 <= 3 * tol + 1e-9 * float(np.max(np.abs(one))) + 1e-13 * sc * float(np.exp(max(gall * n, 0.0)))
         if name in ("Advection", "Dispersion"):
+            _forced(forced)
             spec_m = S.registry()[name](np.random.default_rng(seed), D, N, 0)
+            _forced(None)
             spec_m.dt = -dt
             back = np.asarray(spec_m.build()(jnp.asarray(got)))
             e3 = float(np.max(np.abs(back - u0)))
@@ -201,12 +228,20 @@ def oracle(ctx, deep):
     cases = [(1, 12), (2, 7), (3, 5)] if not deep else [(1, 8), (1, 9), (1, 13), (2, 6), (2, 7), (3, 4), (3, 5)]
     for name in names:
         for (D, N) in cases:
-            for dt in ([1.0, 1e3] if not deep else DTS):
-                r = probe_exact(name, D, N, dt, ctx.seed + 11)
-                ctx.count(("oracle_exact", name, D, N, dt))
-                if not r["ok"]:
-                    fails.append({"key": f"C01:exact:{name}", "what": f"{name} (D={D}, N={N}, dt={r.get('dt')}) differs from the analytic solution of the documented PDE: {r}"[:600],
-                                  "probe": "exact", "args": {"name": name, "D": D, "N": N, "dt": dt, "seed": ctx.seed + 11}, "observed": r})
+            # every combination of the class's boolean options and argument forms (a spatially-mixing flag that has no
+            # effect, a matrix form read wrongly …) — all of them for D >= 2, where they differ
+            combos = option_combos(name, D, N, ctx.seed + 11) if D >= 2 else [None]
+            hit = False
+            for forced in combos:
+                for dt in ([1.0, 1e3] if not deep else DTS):
+                    r = probe_exact(name, D, N, dt, ctx.seed + 11, forced)
+                    ctx.count(("oracle_exact", name, D, N, dt, repr(forced)))
+                    if not r["ok"]:
+                        fails.append({"key": f"C01:exact:{name}", "what": f"{name} (D={D}, N={N}, dt={r.get('dt')}) differs from the analytic solution of the documented PDE: {r}"[:600],
+                                      "probe": "exact", "args": {"name": name, "D": D, "N": N, "dt": dt, "seed": ctx.seed + 11, "forced": forced}, "observed": r})
+                        hit = True
+                        break
+                if hit:
                     break
     for (D, N) in cases:
         for dt in (0.5, 100.0, -0.3):
